@@ -3,24 +3,10 @@
   One call:    store_object(pid, data, checksum, checksum_algorithm, size)
   Three calls: store_object(data); delete_if_invalid_object(meta, …); tag_object(pid, meta.cid)
 -/
-import HSModel.Proofs.StepLemmas
+import HSModel.Proofs.Converge
 namespace HS.C19
 open Abs
 variable (cfg : Config) (o : Oracle)
-
-theorem lookupDigest_map (l : List Str) (f : Str → Str) (x : Str) :
-    lookupDigest (l.map fun a => (a, f a)) x = if x ∈ l then some (f x) else none := by
-  unfold lookupDigest
-  induction l with
-  | nil => simp
-  | cons a r ih =>
-    simp only [List.map_cons, List.find?_cons]
-    by_cases h : a = x
-    · subst h; simp
-    · simp only [h, decide_false, List.mem_cons]
-      rw [ih]
-      have : ¬ x = a := fun e => h e.symm
-      simp [this]
 
 /-- the digest both procedures end up comparing the checksum with is the true
     digest of the content under the named algorithm -/
@@ -74,5 +60,185 @@ theorem verdict_true (t : Tok) (add cs : Option Str) (sz : IArg) (c a' : Str) :
         else if o.dig a' t ≠ lower c then .badChecksum else .valid := by
   unfold verdict
   simp only [usedDigest_true]
+
+/-- the verdict of the one-call way, spelled out -/
+def oneVerdict (t : Tok) (sz : IArg) (c a' : Str) : Verdict :=
+  if sizeMismatch sz (o.size t) then .badSize
+  else if o.dig a' t ≠ lower c then .badChecksum else .valid
+
+/-- With validation data (checksum, checksum algorithm — default or not — and
+    optionally a size): from any state, the one call and the three calls
+    (a) when the data is correct end in the same state, the validation step
+        reports success, the one call fails exactly when the tagging fails, with
+        the same error, and otherwise reports the cid / size / default digests
+        of the data-only store;
+    (b) when it is incorrect raise the same mismatch error; the one call leaves
+        the state as it was; after the three-call way every binding and every
+        document is as before (so the pid is not bound by it) and every object
+        that was referenced is still there with its content. -/
+theorem converge_checked (a : Abs) (p : Str) (t : Tok) (additional : SArg) (add' cs' : Option Str) (c al : Str)
+    (sz : IArg)
+    (hargs : storeArgs cfg (.str p) (.ok t) additional (.str c) (.str al) sz = .ok (p, add', cs', t))
+    (hcid : checkStringOk (o.dig cfg.alg t) = true) (halg : cfg.alg ∈ defaultAlgos)
+    (hobj : AddressHolds cfg o a t) :
+    ∃ a', cleanAlgorithm al = .ok a' ∧ cs' = some a' ∧
+    let one := step cfg o a (.storeObject (.str p) (.ok t) additional (.str c) (.str al) sz)
+    let s1 := step cfg o a (.storeObject .none (.ok t) .none .none .none .none)
+    let m0 := objMetaOf cfg o t none none
+    let s2 := step cfg o s1.2 (.deleteIfInvalid (some m0) (.str c) (.str al) sz)
+    let s3 := step cfg o s2.2 (.tagObject (.str p) (.str m0.cid))
+    s1.1 = .ok (.objMeta m0) ∧
+    (oneVerdict o t sz c a' = .valid →
+      s2.1 = .ok .unit ∧ one.2 = s3.2 ∧
+      one.1 = s3.1.map (fun _ => .objMeta (objMetaOf cfg o t add' cs'))) ∧
+    (∀ e, (oneVerdict o t sz c a').exc = some e →
+      one.1 = .error e ∧ one.2 = a ∧ s2.1 = .error e ∧ s2.2.bind = a.bind ∧ s2.2.docs = a.docs ∧
+      ∀ c' t', a.referenced c' = true → a.objs.get c' = some t' → s2.2.objs.get c' = some t') := by
+  obtain ⟨_, _, hp, hc, hal, hi, a', hcl, hcs⟩ := storeArgs_inv cfg hargs
+  refine ⟨a', hcl, hcs, ?_⟩
+  subst hcs
+  have hv := verdict_true cfg o t add' (some a') sz c a'
+  have hd := divDigest_true cfg o a t a' halg hobj
+  have hdivargs : divArgs (.str c) (.str al) sz = .ok (c, al) := by
+    simp [divArgs, checkString, hc, hal, hi]
+  have hcontains : (a.addObj (o.dig cfg.alg t) t).objs.contains (o.dig cfg.alg t) = true := by
+    rw [FMap.contains_iff]; exact ⟨t, addObj_get_own cfg o a t hobj⟩
+  simp only [step, storeObj, storeData, hargs, checkArgData, openStream, ok_bind, sArgStr]
+  have hsz : (objMetaOf cfg o t add' (some a')).size = o.size t := rfl
+  have hsz0 : (objMetaOf cfg o t none none).size = o.size t := rfl
+  have hcid0 : (objMetaOf cfg o t none none).cid = o.dig cfg.alg t := rfl
+  have hcid1 : (objMetaOf cfg o t add' (some a')).cid = o.dig cfg.alg t := rfl
+  rw [hsz, hv]
+  simp only [divObj, hdivargs, hcl, hsz0, hcid0, hcid1, hd]
+  refine ⟨trivial, ?_, ?_⟩
+  · intro hval
+    unfold oneVerdict at hval
+    by_cases h1 : sizeMismatch sz (o.size t) = true
+    · simp [h1] at hval
+    · by_cases h2 : o.dig a' t = lower c
+      · simp only [h1, h2, ne_eq, not_true_eq_false, if_false, Verdict.exc, Bool.false_eq_true]
+        simp only [tagObj, checkString, hp, hcid, if_true, ok_bind, pure_ok]
+        refine ⟨trivial, trivial, ?_⟩
+        generalize ((a.addObj (o.dig cfg.alg t) t).tag p (o.dig cfg.alg t)).1 = r
+        cases r <;> rfl
+      · simp [h1, h2] at hval
+  · intro e he
+    have hdel : ((a.addObj (o.dig cfg.alg t) t).deleteOnly (o.dig cfg.alg t)).1 = .ok () := by
+      unfold deleteOnly
+      split
+      · rfl
+      · simp
+    have hkeep : ∀ c' t', a.referenced c' = true → a.objs.get c' = some t' →
+        ((a.addObj (o.dig cfg.alg t) t).deleteOnly (o.dig cfg.alg t)).2.objs.get c' = some t' := by
+      intro c' t' hr hg
+      have hr' : (a.addObj (o.dig cfg.alg t) t).referenced c' = true := by
+        unfold referenced; rw [addObj_bind]; exact hr
+      rw [deleteOnly_keeps_referenced _ _ _ hr']
+      exact addObj_keeps a _ _ _ _ hg
+    unfold oneVerdict at he
+    by_cases h1 : sizeMismatch sz (o.size t) = true
+    · simp only [h1, if_true, Verdict.exc] at he ⊢
+      cases he
+      simp only [hdel, orElse, deleteOnly_bind, deleteOnly_docs, addObj_bind, addObj_docs]
+      exact ⟨trivial, trivial, trivial, trivial, trivial, hkeep⟩
+    · by_cases h2 : o.dig a' t = lower c
+      · simp [h1, h2, Verdict.exc] at he
+      · simp only [h1, h2, ne_eq, not_false_eq_true, if_true, if_false, Verdict.exc, Bool.false_eq_true] at he ⊢
+        cases he
+        simp only [hdel, orElse, deleteOnly_bind, deleteOnly_docs, addObj_bind, addObj_docs]
+        exact ⟨trivial, trivial, trivial, trivial, trivial, hkeep⟩
+
+/-- The same on the concrete program text (every step of the calls as the model
+    executes them on the directory), from any store that simulates an abstract
+    state — in particular after any history from the empty store
+    (`C05.concrete_refines_spec_history`): with correct validation data the two
+    ways end in directories that simulate one and the same abstract state
+    (`C05.sim_means` says what that fixes: bindings, lists, objects, documents,
+    empty temp areas) and return the results of the specification; with
+    incorrect data both raise the same error, the one-call directory still
+    simulates the state before, and the three-call directory simulates a state
+    with the same bindings and documents in which every referenced object is
+    kept. -/
+theorem concrete_converge (st : Store) (log : List Eff) (a : Abs) (hs : Sim o st a) (ho : GoodOracle o)
+    (p : Str) (t : Tok) (additional : SArg) (add' cs' : Option Str) (c al : Str) (sz : IArg)
+    (hargs : storeArgs cfg (.str p) (.ok t) additional (.str c) (.str al) sz = .ok (p, add', cs', t))
+    (halg : cfg.alg ∈ defaultAlgos) (hobj : AddressHolds cfg o a t) :
+    ∃ a', cleanAlgorithm al = .ok a' ∧
+    let m0 := objMetaOf cfg o t none none
+    let one : Call := .storeObject (.str p) (.ok t) additional (.str c) (.str al) sz
+    let c1 : Call := .storeObject .none (.ok t) .none .none .none .none
+    let c2 : Call := .deleteIfInvalid (some m0) (.str c) (.str al) sz
+    let c3 : Call := .tagObject (.str p) (.str m0.cid)
+    let w := calm st log
+    (oneVerdict o t sz c a' = .valid →
+      ∃ (x : Abs) (r : Except Exc Val),
+        Sim o (runHist cfg o [one] w).2.st x ∧ Sim o (runHist cfg o [c1, c2, c3] w).2.st x ∧
+        (runHist cfg o [c1, c2, c3] w).1 = [.ok (.objMeta m0), .ok .unit, r] ∧
+        (runHist cfg o [one] w).1 = [r.map fun _ => .objMeta (objMetaOf cfg o t add' cs')]) ∧
+    (∀ e, (oneVerdict o t sz c a').exc = some e →
+      (runHist cfg o [one] w).1 = [.error e] ∧ Sim o (runHist cfg o [one] w).2.st a ∧
+      (runHist cfg o [c1, c2] w).1 = [.ok (.objMeta m0), .error e] ∧
+      ∃ x : Abs, Sim o (runHist cfg o [c1, c2] w).2.st x ∧ x.bind = a.bind ∧ x.docs = a.docs ∧
+        ∀ c' t', a.referenced c' = true → a.objs.get c' = some t' → x.objs.get c' = some t') := by
+  have hcid : checkStringOk (o.dig cfg.alg t) = true := ho.okDigests _ _
+  obtain ⟨a', hcl, hcs, hm0, hvalid, hinvalid⟩ := converge_checked cfg o a p t additional add' cs' c al sz hargs hcid halg hobj
+  refine ⟨a', hcl, ?_⟩
+  intro m0 one c1 c2 c3 w
+  have hplain : ∀ x ∈ [c1, c2, c3], CidArgPlain x := by
+    intro x hx
+    simp only [List.mem_cons, List.not_mem_nil, or_false] at hx
+    rcases hx with rfl | rfl | rfl
+    · trivial
+    · trivial
+    · exact ho.plainDigests _ _
+  have h1 := refines_history_from cfg o [one] w a rfl rfl hs ho (by intro x hx; simp at hx; subst hx; trivial)
+  have h3 := refines_history_from cfg o [c1, c2, c3] w a rfl rfl hs ho hplain
+  have h2 := refines_history_from cfg o [c1, c2] w a rfl rfl hs ho
+    (fun x hx => hplain x (by simp at hx ⊢; rcases hx with h | h <;> simp [h]))
+  refine ⟨?_, ?_⟩
+  · intro hv
+    obtain ⟨hs2, hst, hres⟩ := hvalid hv
+    refine ⟨(specHist cfg o [one] a).2, (step cfg o (step cfg o (step cfg o a c1).2 c2).2 c3).1, h1.2.1, ?_, ?_, ?_⟩
+    · have : (specHist cfg o [one] a).2 = (specHist cfg o [c1, c2, c3] a).2 := hst
+      rw [this]; exact h3.2.1
+    · rw [h3.1]; simp only [specHist]
+      rw [hm0, hs2]
+    · rw [h1.1]; simp only [specHist]
+      rw [hres]
+  · intro e he
+    obtain ⟨ho1, ho2, hs2, hb, hd, hk⟩ := hinvalid e he
+    refine ⟨?_, ?_, ?_, (specHist cfg o [c1, c2] a).2, h2.2.1, hb, hd, hk⟩
+    · rw [h1.1]; simp only [specHist]; rw [ho1]
+    · have := h1.2.1
+      simp only [specHist] at this
+      rw [ho2] at this; exact this
+    · rw [h2.1]; simp only [specHist]; rw [hm0, hs2]
+
+/-- in every state reached by a history from the empty store, with a
+    collision-free content digest, the address of `t` holds `t` or nothing -/
+theorem addressHolds_of_history (cs : List Call) (t : Tok)
+    (hinj : ∀ t t', o.dig cfg.alg t = o.dig cfg.alg t' → t = t') :
+    AddressHolds cfg o (specHist cfg o cs Abs.empty).2 t := by
+  intro t' hg
+  exact (hinj _ _ (addressed_history cfg o cs (addressed_empty cfg o) _ _ hg)).symm
+
+/-! the hypotheses are satisfiable, in all three verdict classes (tests of the
+    statement on literals, not part of the proof) -/
+def oS : Oracle :=
+  { hId := fun s => s ++ ['0'], dig := fun _ t => List.replicate t 'a' ++ ['0'], size := fun t => t }
+def cfgS : Config := { depth := 3, width := 2, alg := "sha256".toList, ns := "ns".toList }
+
+example : storeArgs cfgS (.str "p".toList) (.ok 3) (.str "MD5".toList) (.str "AAA0".toList) (.str "SHA-384".toList) (.int 3)
+    = .ok ("p".toList, some "md5".toList, some "sha384".toList, 3) := by decide
+example : cfgS.alg ∈ defaultAlgos := by decide
+example : oneVerdict oS 3 (.int 3) "AAA0".toList "sha384".toList = .valid := by decide
+example : oneVerdict oS 3 (.int 3) "AAb0".toList "sha384".toList = .badChecksum := by decide
+example : oneVerdict oS 3 (.int 4) "AAA0".toList "sha384".toList = .badSize := by decide
+example (cs : List Call) : AddressHolds cfgS oS (specHist cfgS oS cs Abs.empty).2 3 :=
+  addressHolds_of_history cfgS oS cs 3 (by
+    intro t t' h
+    simp only [oS] at h
+    have := congrArg List.length h
+    simpa using this)
 
 end HS.C19
